@@ -8,9 +8,8 @@ model is square before simplification (checked).  After simplify():
 * dae_residual_function, initial_residual_function and variable_metadata_function can be constructed and the
   DAE residual can be evaluated -- no remaining expression refers to an eliminated variable.
 
-A precondition failure that simplify() itself announces by raising is not judged (nothing was simplified); a
-"free variable" error raised from inside simplify() or while building a function is exactly what the
-property forbids and is reported.
+No option combination of the alphabet is refused by design, so simplify() raising on one of these regular
+models -- or leaving something from which a function cannot be built -- is reported.
 """
 from vf.checks import c14
 from vf.checks import simp as S
@@ -55,6 +54,11 @@ def judge(job):
             viol("dae-residual-unbuildable:" + type(err).__name__, "after simplify() the DAE residual / post checks fail: %s" % str(err)[:300])
         elif _free_symbol_error(err):
             viol("free-symbol-in-simplify:" + common.exc_sig(err), "simplify() fails on a dangling symbol: %r" % err)
+        elif phase == "simplify":
+            # No option combination of the alphabet is refused by design (expand_mx is switched on with
+            # eliminable_variable_expression): simplify() failing on a regular model means the simplified functions
+            # cannot be built.
+            viol("simplify-raises:" + common.exc_sig(err) + (":eve" if eve else ""), "simplify() raises on a regular model: %s" % str(err)[:300])
         else:
             res["outcome"] = "exception:" + common.exc_sig(err)
         return res
